@@ -62,12 +62,12 @@ def run(ctx, rep):
     # combined mode: a signed message is signature || message, the empty message included: the openers
     # accept exactly the inputs of at least 64 bytes
     n = 0
-    for path in ("classic::crypto_sign::crypto_sign_open", "classic::crypto_sign_ed25519::crypto_sign_ed25519_open"):
+    for path in ("classic::crypto_sign::crypto_sign_open",):       # its crate-private callee is folded into the view
         for f in prog.by_path.get(path, []):
             ps = [p for p in cm.params_of(f) if f.locals[p]["t"].replace("'_ ", "") == "&[u8]"]
             if len(ps) == 1:
                 n += cm.accepts_min_len(rep, prog, f, ps[0], 64, "COMBINED", path.split("::")[-1])
-    rep.floor("combined-mode openers (Ok exits)", n, 2)
+    rep.floor("combined-mode openers (Ok exits)", n, 1)
     _nw = cm.read_after_wipe(rep, ctx.prog("full"), ("classic::crypto_sign", "sign::"))
     rep.note("WIPE-ORDER: %d wipe(s) of local buffers checked in the signing code" % _nw)
 
